@@ -28,9 +28,16 @@ type fastConn struct {
 	closed chan struct{}
 	once   sync.Once
 	ids    chan string
+	failW  bool // guarded by mu: every later write fails
 }
 
 func (c *fastConn) WriteMessage(mt int, data []byte) error {
+	c.mu.Lock()
+	fw := c.failW
+	c.mu.Unlock()
+	if fw {
+		return errors.New("write: broken pipe")
+	}
 	if mt != 8 {
 		s := string(data)
 		if i := strings.Index(s, `"type":"subscribe"`); i >= 0 {
@@ -234,9 +241,38 @@ func wsProbeLateNextAfterUnsubscribe() string {
 	return ""
 }
 
+// two live subscriptions, the connection's writes start failing, nobody reads the error channel, Close: every write
+// returned (with an error), so Close must return too
+func wsProbeCloseFailingWritesUndrained() string {
+	conn := &fastConn{in: make(chan []byte, 16), closed: make(chan struct{}), ids: make(chan string, 8)}
+	conn.in <- []byte(`{"type":"connection_ack"}`)
+	cl := graphql.NewClientUsingWebSocket("ws://h/q", fastDialer{conn})
+	if _, err := cl.Start(context.Background()); err != nil {
+		return ""
+	}
+	fwd := func(c interface{}, raw json.RawMessage) error { c.(chan string) <- string(raw); return nil }
+	for i := 0; i < 2; i++ {
+		if _, err := cl.Subscribe(wsReq, make(chan string), fwd); err != nil {
+			return ""
+		}
+		<-conn.ids
+	}
+	conn.mu.Lock()
+	conn.failW = true
+	conn.mu.Unlock()
+	done := make(chan struct{})
+	go func() { cl.Close(); close(done) }()
+	select {
+	case <-done:
+		return ""
+	case <-time.After(3 * time.Second):
+		return "api-call-blocked:close Close did not return with two live subscriptions, failing connection writes and an error channel nobody reads (every write returned)"
+	}
+}
+
 func wsStressChild(c *Ctx, n int) {
 	w := bufio.NewWriter(os.Stdout)
-	for _, probe := range []func() string{wsProbeTwoBadFramesThenClose, wsProbeLateNextAfterUnsubscribe} {
+	for _, probe := range []func() string{wsProbeTwoBadFramesThenClose, wsProbeLateNextAfterUnsubscribe, wsProbeCloseFailingWritesUndrained} {
 		if msg := probe(); msg != "" {
 			fmt.Fprintf(w, "PROBE %s\n", msg)
 		}
